@@ -18,7 +18,7 @@ func init() {
 			"epoch the population monitor checks size, freshness of organisms, the species partition, id uniqueness / non-reuse and ages. " +
 			"evaluations = epochs. An epoch is non-trivial if the population has >= 2 species before or after it; distinct by " +
 			"(species sizes, ages, population size, fitness shape) signature.",
-		Assumptions: []string{"fitness finite, non-negative; 8 shapes incl. values near the top of the float64 range whose sum over the population overflows", "population size 3..150, 25-60 consecutive epochs"},
+		Assumptions: []string{"fitness finite, non-negative; 8 shapes incl. values near the top of the float64 range whose sum over the population overflows", "population size 3..150, 25-60 consecutive epochs", "start genomes also with trained weights (tens to hundreds) and innovation numbers beyond 2^53; read populations also from files with repeated genome ids and from dumps by species; every eighth case is followed by a second run on a changed copy of the options, served every other time by the same executor object"},
 		Cases: func(tier string) int {
 			if tier == "quick" {
 				return 384
